@@ -31,6 +31,7 @@ import (
 
 	"github.com/blevesearch/bleve/v2"
 	"github.com/blevesearch/bleve/v2/index/scorch"
+	"github.com/blevesearch/bleve/v2/index/scorch/mergeplan"
 	"github.com/blevesearch/bleve/v2/util"
 	index "github.com/blevesearch/bleve_index_api"
 	bolt "go.etcd.io/bbolt"
@@ -171,8 +172,8 @@ type witness struct {
 }
 
 type gstats struct {
-	images, imagesInWindow, purgeAsserts, purgeAssertsWithCopyScheduled, purgeAssertsWithIneligible, copies, heldReads, heldUnlinked, strict int
-	intro                                                                                                                                    string
+	images, imagesInWindow, purgeAsserts, purgeAssertsWithCopyScheduled, purgeAssertsWithIneligible, copies, heldReads, heldUnlinked, strict, bursts, forcedMerges int
+	intro                                                                                                                                                          string
 }
 
 func viewOf(rd index.IndexReader, ids, keys []string) (string, error) {
@@ -204,6 +205,10 @@ func viewOf(rd index.IndexReader, ids, keys []string) (string, error) {
 func runGated(r *ev.Run, dir string, cfg cfgT, seed uint64, policy string) (string, *witness, *gstats, bool) {
 	g := rng.New(seed)
 	W, B, nIDs := g.Range(2, 3), g.Range(4, 7), g.Range(3, 7)
+	if policy == "merge-burst" {
+		// many ids, so that segments are not emptied by the next batch and files pile up for chained merges
+		W, B, nIDs = 3, g.Range(7, 10), 40
+	}
 	writers, ids, keys := genWriters(g.Derive("writers"), W, B, nIDs)
 	base := filepath.Join(dir, fmt.Sprintf("g-%s-%x", cfg.Name, seed))
 	defer os.RemoveAll(base)
@@ -518,6 +523,106 @@ func runGated(r *ev.Run, dir string, cfg cfgT, seed uint64, policy string) (stri
 	sc := &sched.Scenario{Dir: idxDir, KV: cfg.KV, Writers: writers, Gates: gates, G: g.Derive("sched"), MaxSteps: 1200, Policy: policy, Choose: chooser,
 		Handlers: []mon.Handler{purgeAssert}, Extra: []func(*sched.Runner){copier, copier},
 		AfterOpen: func(rn *sched.Runner) { close(jobs) }}
+	var startBurst func()
+	var forcerBusy atomic.Bool
+	if policy == "merge-burst" {
+		// A requester of forced merges with a pairwise plan: each forced merge is planned at once (the merger does
+		// not wait for the persister first), so the output of one forced merge is the input of the next without
+		// ever having been recorded in root.bolt.
+		burstCh := make(chan struct{}, 4)
+		pairwise := &mergeplan.MergePlanOptions{MaxSegmentsPerTier: 1, MaxSegmentSize: 1 << 30, TierGrowth: 2.0,
+			SegmentsPerMergeTask: 2, FloorSegmentSize: 1, ReclaimDeletesWeight: 2.0}
+		forcer := func(rn *sched.Runner) {
+			name := mon.CurrentActor("forcer")
+			for range burstCh {
+				for k := 0; k < 3; k++ {
+					rn.Gate.ActorBlocked(name, "forcemerge") // it only waits for the merger from here on
+					_ = rn.S.ForceMerge(context.Background(), pairwise)
+					rn.Gate.ActorReturned(name)
+					mu.Lock()
+					st.forcedMerges++
+					mu.Unlock()
+				}
+				forcerBusy.Store(false)
+			}
+		}
+		sc.Extra = append(sc.Extra, forcer)
+		prevAfterOpen := sc.AfterOpen
+		sc.AfterOpen = func(rn *sched.Runner) { close(burstCh); prevAfterOpen(rn) }
+		startBurst = func() {
+			forcerBusy.Store(true)
+			select {
+			case burstCh <- struct{}{}:
+			default:
+				forcerBusy.Store(false)
+			}
+		}
+		// The merger is held back until the root has >= 3 segment files and the persister is parked at the start of a
+		// purge; then the merger runs as many merges as it can (outputs of merges become inputs of the next ones
+		// without ever being recorded in root.bolt) before the parked purge is let go. Files are then protected by
+		// nothing but the merger's own marks.
+		sc.Policy = ""
+		burst, burstIntros, nBursts := false, 0, 0
+		sg := g.Derive("burst")
+		sc.ChooseR = func(rn *sched.Runner, s mon.Status, strict bool) mon.Waiter {
+			var merge, purge, persist, other []mon.Waiter
+			for _, w := range s.Waiters {
+				switch {
+				case strings.HasPrefix(w.Point, "merge."):
+					merge = append(merge, w)
+				case strings.HasPrefix(w.Point, "purge."):
+					purge = append(purge, w)
+				case strings.HasPrefix(w.Point, "persist."):
+					persist = append(persist, w)
+				default:
+					other = append(other, w)
+				}
+			}
+			if !burst && nBursts < 2 && len(purge) > 0 && len(rn.S.VerifState().RootFiles) >= 4 {
+				nBursts++
+				burst, burstIntros = true, 0
+				startBurst()
+				mu.Lock()
+				st.bursts++
+				mu.Unlock()
+			}
+			pick := func(groups ...[]mon.Waiter) mon.Waiter {
+				for _, gr := range groups {
+					if len(gr) > 0 {
+						return gr[sg.Intn(len(gr))]
+					}
+				}
+				return s.Waiters[0]
+			}
+			if burst {
+				// once a merge of this burst has been introduced and the next one waits for its introduction (its file
+				// is written, its inputs include the unrecorded output of the previous one), the parked purge goes first
+				waitingIntro := false
+				for _, w := range merge {
+					if w.Point == "merge.beforeIntro" {
+						waitingIntro = true
+					}
+				}
+				if waitingIntro && burstIntros >= 1 && len(purge) > 0 {
+					burst = false
+					return purge[0]
+				}
+				if len(merge) == 0 && forcerBusy.Load() {
+					return mon.Waiter{ID: -1} // the forced merge has been requested; wait until the merger shows up at a gate
+				}
+				w := pick(merge, other, persist, purge)
+				if w.Point == "merge.beforeIntro" {
+					burstIntros++
+				}
+				if strings.HasPrefix(w.Point, "purge.") {
+					burst = false
+				}
+				return w
+			}
+			rest := append(append(append([]mon.Waiter{}, other...), persist...), purge...)
+			return pick(rest, merge)
+		}
+	}
 	final := func(rn *sched.Runner) {
 		for _, h := range helds {
 			now, err := viewOf(h.rd, ids, keys)
@@ -738,7 +843,9 @@ func run(r *ev.Run) {
 			g := r.Rng(fmt.Sprintf("gated-%d", i))
 			cfg := cs[i%len(cs)]
 			seed := g.Uint64()
-			pols := append(append([]string{}, sched.Policies...), "duel", "duel")
+			// a starved persister (the merger runs several merges within one persister round) is the schedule in
+			// which files are protected by nothing but the merger's own marks: over-represented on purpose
+			pols := append(append([]string{}, sched.Policies...), "duel", "merge-burst", "duel", "merge-burst")
 			policy := pols[(i/len(cs))%len(pols)]
 			problem, wit, st, timedOut := runGated(r, dir, cfg, seed, policy)
 			r.Case(fmt.Sprintf("gated/%s/%s/%x", cfg.Name, policy, seed), st.imagesInWindow > 0)
@@ -752,6 +859,8 @@ func run(r *ev.Run) {
 			tot.heldReads += st.heldReads
 			tot.heldUnlinked += st.heldUnlinked
 			tot.strict += st.strict
+			tot.bursts += st.bursts
+			tot.forcedMerges += st.forcedMerges
 			orders[cfg.Name+st.intro] = true
 			mu.Unlock()
 			if i < 2 {
@@ -770,7 +879,7 @@ func run(r *ev.Run) {
 	r.Extra("gated", map[string]any{"scenarios": nG, "images_opened": tot.images, "images_taken_inside_a_window": tot.imagesInWindow,
 		"file_removals_asserted": tot.purgeAsserts, "file_removals_asserted_while_a_copy_was_scheduled": tot.purgeAssertsWithCopyScheduled,
 		"file_removals_asserted_while_files_were_marked_ineligible": tot.purgeAssertsWithIneligible, "online_copies_completed": tot.copies, "policies": sched.Policies, "held_reader_reads": tot.heldReads, "held_reader_paths_unlinked_while_held_not_judged": tot.heldUnlinked,
-		"strict_quiescent_points": tot.strict, "distinct_introducer_orders": len(orders)})
+		"strict_quiescent_points": tot.strict, "merge_bursts_with_a_parked_purge": tot.bursts, "forced_pairwise_merges_in_bursts": tot.forcedMerges, "distinct_introducer_orders": len(orders)})
 	for i := 0; i < nGrow; i++ {
 		wg.Add(1)
 		sem <- struct{}{}
